@@ -451,6 +451,7 @@ func (p *parser) parsePrimary() (Expr, error) {
 // Contract files
 
 type Clause struct {
+	Assumed bool // `ensures!`: used by callers, not proved for the function itself (listed in the evidence)
 	Kind  string // requires, ensures, invariant, assert, decreases
 	Props []string
 	E     Expr
@@ -517,6 +518,7 @@ type Contracts struct {
 	Specs   map[string]*SpecFunc
 	Axioms  []*Axiom
 	Globals []*GlobalInv
+	BinaryLog bool
 	Tracked map[string]bool
 	Pools   map[string]string // global holding a *sync.Pool -> type of the pooled objects
 	TypeInvs map[string]string // dynamic type -> spec predicate assumed for every value of that type taken out of an interface
@@ -529,7 +531,7 @@ func newContracts() *Contracts {
 
 var clauseKeywords = map[string]bool{
 	"typeinv": true, "pool": true, "config": true, "package": true, "func": true, "dyn": true, "iface": true, "var": true, "global": true, "spec": true, "axiom": true, "track": true,
-	"props": true, "arith": true, "requires": true, "ensures": true, "modifies": true, "loop": true,
+	"props": true, "arith": true, "requires": true, "ensures": true, "ensures!": true, "modifies": true, "loop": true,
 	"invariant": true, "decreases": true, "assert": true, "flag": true, "trusted": true,
 }
 
@@ -604,6 +606,17 @@ func (cs *Contracts) loadContractFile(file, pkg string, trusted bool) error {
 	data, err := os.ReadFile(file)
 	if err != nil {
 		return err
+	}
+	// contract files may be specific to one encoder build
+	for _, l := range strings.SplitN(string(data), "\n", 6) {
+		if strings.HasPrefix(l, "//go:build") {
+			if strings.Contains(l, "!binary_log") && cs.BinaryLog {
+				return nil
+			}
+			if !strings.Contains(l, "!binary_log") && strings.Contains(l, "binary_log") && !cs.BinaryLog {
+				return nil
+			}
+		}
 	}
 	cs.Files = append(cs.Files, file)
 	type rawLine struct {
@@ -786,7 +799,7 @@ func (cs *Contracts) loadContractFile(file, pkg string, trusted bool) error {
 				}
 				curLoop = &LoopSpec{N: n}
 				cur.Loops[n] = curLoop
-			case "requires", "ensures", "invariant", "decreases", "assert":
+			case "requires", "ensures", "ensures!", "invariant", "decreases", "assert":
 				props, body := parseProps(rest)
 				e, err := parseExpr(body)
 				if err != nil {
@@ -797,7 +810,9 @@ func (cs *Contracts) loadContractFile(file, pkg string, trusted bool) error {
 				case "requires":
 					cl.Idx = len(cur.Requires) + 1
 					cur.Requires = append(cur.Requires, cl)
-				case "ensures":
+				case "ensures", "ensures!":
+					cl.Kind = "ensures"
+					cl.Assumed = kw == "ensures!"
 					cl.Idx = len(cur.Ensures) + 1
 					cur.Ensures = append(cur.Ensures, cl)
 				case "invariant":
@@ -827,8 +842,9 @@ func qualifyVar(pkg, name string) string {
 
 // loadAllContracts reads every zz_contracts_verif.go below root and the
 // trusted contract files of the verifier.
-func loadAllContracts(root, modPath, trustedDir string) (*Contracts, error) {
+func loadAllContracts(root, modPath, trustedDir string, binaryLog bool) (*Contracts, error) {
 	cs := newContracts()
+	cs.BinaryLog = binaryLog
 	var files []string
 	filepath.Walk(root, func(p string, info os.FileInfo, err error) error {
 		if err != nil {
